@@ -104,6 +104,35 @@ Proof.
   rewrite E. intro X. apply app_eq_nil in X. destruct X as [_ X]. discriminate.
 Qed.
 
+(* ---- Windows rules, component level (model-only) ----------------------------------------------------- *)
+Lemma last_is_sep_decomp : forall root, last_is is_sep root = true -> exists r' c, root = r' ++ [c] /\ is_sep c = true.
+Proof.
+  intros root H. unfold last_is in H. destruct (rev root) as [|c t] eqn:E; [discriminate|].
+  exists (rev t), c. split; [|exact H]. rewrite <- (rev_involutive root), E. reflexivity.
+Qed.
+
+Lemma win_comps_app_sep : forall a c b, is_sep c = true -> win_comps (a ++ c :: b) = win_comps a ++ win_comps b.
+Proof. intros a c b H. unfold win_comps. rewrite (split_seps_app a c b H), filter_app. reflexivity. Qed.
+
+Lemma win_comps_trailing : forall a c, is_sep c = true -> win_comps (a ++ [c]) = win_comps a.
+Proof. intros a c H. rewrite (win_comps_app_sep a c [] H). cbn. apply app_nil_r. Qed.
+
+(* PathBuf::push under Windows rules with a safe relative argument, onto a root that is not a bare drive `X:`:
+   the root's components, then the argument's, none of them `..` *)
+Lemma windows_join_comps : forall root rel, root <> [] -> is_bare_drive root = false -> safe_rel rel ->
+  win_comps (windows_join root rel) = win_comps root ++ win_comps rel /\
+  Forall (fun c => c <> dotdot) (win_comps rel).
+Proof.
+  intros root rel N B [H1 [H2 H3]]. split.
+  - unfold windows_join. rewrite H2, H1. unfold win_append. destruct root as [|r0 root'] eqn:ER; [contradiction|].
+    rewrite <- ER in *. rewrite B, orb_false_r. destruct (last_is is_sep root) eqn:L.
+    + destruct (last_is_sep_decomp root L) as [r' [c [E Hc]]]. rewrite E, <- app_assoc. cbn [app].
+      rewrite (win_comps_app_sep r' c rel Hc), (win_comps_trailing r' c Hc). reflexivity.
+    + cbn [app]. apply win_comps_app_sep. reflexivity.
+  - unfold win_comps. apply Forall_forall. intros c Hc. apply filter_In in Hc. rewrite Forall_forall in H3.
+    exact (H3 c (proj1 Hc)).
+Qed.
+
 (* ---- the cache paths of the generated builders ------------------------------------------------------ *)
 Lemma lookup_cache_has_component : forall k cf df id cid l,
   lookup k cf df (Some id) cid = Some l -> id <> [] -> hex_only id -> posix_comps (cache_rel l) <> [].
